@@ -71,6 +71,20 @@ pub fn check_pair(n: i32, t: i64) -> Result<(), String> {
             Ok(x) if x == ts && h64(&x) == h64(&ts) => {}
             _ => return Err(format!("try_from_usecs({want}) is not equal to / does not hash like Timestamp::new(..)")),
         }
+        // the Oracle-style date of the same whole second reports the same fields
+        if t % 1_000_000 == 0 {
+            let o = sqldatetime::OracleDate::new(d, tm);
+            if o.usecs() as i128 != want {
+                return Err(format!("OracleDate::new(day {n}, time {t}).usecs() = {}, expected {want}", o.usecs()));
+            }
+            let (od, ot) = o.extract();
+            if od != d || ot != tm || Time::from(o) != tm || DateTime::date(&o) != Some(d) {
+                return Err(format!("OracleDate {want}: extract / Time::from / date() = (day {}, time {}), expected (day {n}, time {t})", od.days(), ot.usecs()));
+            }
+            if o.year() != Some(r.y) || o.month() != Some(r.m as i32) || o.day() != Some(r.d as i32) || o.hour() != Some(hour) || o.minute() != Some(minute) || o.second().map(|s| s.to_bits()) != Some(second.to_bits()) {
+                return Err(format!("OracleDate {want}: accessors {:?}-{:?}-{:?} {:?}:{:?}:{:?}, expected {}-{}-{} {hour}:{minute}:{second}", o.year(), o.month(), o.day(), o.hour(), o.minute(), o.second(), r.y, r.m, r.d));
+            }
+        }
         Ok(())
     })
     .unwrap_or_else(|p| Err(p))
